@@ -273,6 +273,10 @@ type e6Interp struct {
 	PureCall func(f *types.Func) bool
 	// Inline lets the interpreter evaluate a callee's body instead of treating the call as opaque.
 	Inline func(f *ssa.Function) bool
+	// HoistedLoads: a value defined outside the region that is a pure expression of parameters, constants and loads of
+	// fields the function never stores to (and the function makes no calls that could) is evaluated in place, like
+	// pureOfParams values. Used where two functions are compared and one of them has hoisted an invariant.
+	HoistedLoads bool
 	// OuterName, when set, names values defined outside the region (default: outerName, which uses SSA registers).
 	OuterName func(v ssa.Value) string
 	// MaxAtoms bounds the atoms of one region (default 14).
@@ -302,6 +306,20 @@ func (e *e6Interp) need(s *Sym) bool {
 		if isBoolT(s.Args[0].Type) && (s.Tok == token.EQL || s.Tok == token.NEQ) {
 			a, b := e.need(s.Args[0]), e.need(s.Args[1])
 			return (a == b) == (s.Tok == token.EQL)
+		}
+		// x < min(a, b) is x < a && x < b (likewise <=), x > max(a, b) is x > a && x > b (likewise >=): decided
+		// conjunct by conjunct, left to right, like the short-circuit form
+		if len(s.Args) == 2 {
+			x, m := s.Args[0], s.Args[1]
+			isMM := func(t *Sym, name string) bool { return t.Op == "call" && t.Name == name && len(t.Args) == 2 }
+			if ((s.Tok == token.LSS || s.Tok == token.LEQ) && isMM(m, "min")) || ((s.Tok == token.GTR || s.Tok == token.GEQ) && isMM(m, "max")) {
+				for _, a := range m.Args {
+					if !e.need(e.binop(s.Tok, x, a, s.Type)) {
+						return false
+					}
+				}
+				return true
+			}
 		}
 	}
 	if e.Decide != nil {
@@ -356,7 +374,7 @@ func (e *e6Interp) val(v ssa.Value) *Sym {
 	// A value defined outside the region that is a pure expression of the function's parameters and constants (a length
 	// taken once before a loop, a bound hoisted out of it) has the same value wherever it is used: evaluate it in place,
 	// as if it had been written where it is used.
-	if in, ok := v.(ssa.Instruction); ok && pureOfParams(v, 0) {
+	if in, ok := v.(ssa.Instruction); ok && (pureOfParams(v, 0) || (e.HoistedLoads && pureOfInvariants(v, in.Parent(), 0))) {
 		e.step(in)
 		if s, ok := e.env[v]; ok {
 			return s
@@ -1414,6 +1432,9 @@ func pureOfParams(v ssa.Value, d int) bool {
 		return pureOfParams(x.X, d+1)
 	case *ssa.ChangeType:
 		return pureOfParams(x.X, d+1)
+	case *ssa.FieldAddr:
+		// the address of a field of what a parameter points to: fixed for the call
+		return pureOfParams(x.X, d+1)
 	case *ssa.UnOp:
 		return (x.Op == token.SUB || x.Op == token.NOT || x.Op == token.XOR) && pureOfParams(x.X, d+1)
 	case *ssa.Call:
@@ -1429,4 +1450,85 @@ func pureOfParams(v ssa.Value, d int) bool {
 		return true
 	}
 	return false
+}
+
+// pureOfInvariants: like pureOfParams, and also loads of fields reached from a parameter, provided fn never stores to
+// a field of that name and makes no calls other than builtins (so nothing in fn can change what the load yields).
+func pureOfInvariants(v ssa.Value, fn *ssa.Function, d int) bool {
+	if d > 6 || fn == nil {
+		return false
+	}
+	switch x := v.(type) {
+	case *ssa.Const, *ssa.Parameter:
+		return true
+	case *ssa.BinOp:
+		return pureOfInvariants(x.X, fn, d+1) && pureOfInvariants(x.Y, fn, d+1)
+	case *ssa.Convert:
+		return pureOfInvariants(x.X, fn, d+1)
+	case *ssa.ChangeType:
+		return pureOfInvariants(x.X, fn, d+1)
+	case *ssa.UnOp:
+		if x.Op == token.MUL {
+			fa, ok := x.X.(*ssa.FieldAddr)
+			if !ok {
+				return false
+			}
+			if _, isParam := fa.X.(*ssa.Parameter); !isParam {
+				return false
+			}
+			fld, _ := fieldOfAddr(fa)
+			return fld != nil && leavesFieldAlone(fn, fld.Name(), 0)
+		}
+		return (x.Op == token.SUB || x.Op == token.NOT || x.Op == token.XOR) && pureOfInvariants(x.X, fn, d+1)
+	case *ssa.Call:
+		bi, ok := x.Call.Value.(*ssa.Builtin)
+		if !ok || !(bi.Name() == "len" || bi.Name() == "cap" || bi.Name() == "min" || bi.Name() == "max") {
+			return false
+		}
+		for _, a := range x.Call.Args {
+			if !pureOfInvariants(a, fn, d+1) {
+				return false
+			}
+		}
+		return true
+	}
+	return false
+}
+
+// leavesFieldAlone: fn stores to no field of the given name and calls only builtins, functions without pointer-like
+// arguments, or functions with a body that themselves leave the field alone.
+func leavesFieldAlone(fn *ssa.Function, field string, depth int) bool {
+	if fn == nil || fn.Blocks == nil || depth > 3 {
+		return false
+	}
+	quiet := true
+	eachInstr(fn, func(_ *ssa.BasicBlock, in ssa.Instruction) {
+		if !quiet {
+			return
+		}
+		switch y := in.(type) {
+		case *ssa.Store:
+			if f2, _ := fieldOfAddr(y.Addr); f2 != nil && f2.Name() == field {
+				quiet = false
+			}
+		case ssa.CallInstruction:
+			if _, isB := y.Common().Value.(*ssa.Builtin); isB {
+				return
+			}
+			pointerArg := false
+			for _, a := range callArgs(y.Common()) {
+				if isPointerLike(a.Type()) && !isString(a.Type()) {
+					pointerArg = true
+				}
+			}
+			if !pointerArg {
+				return
+			}
+			sc := y.Common().StaticCallee()
+			if sc == nil || sc == fn || !leavesFieldAlone(sc, field, depth+1) {
+				quiet = false
+			}
+		}
+	})
+	return quiet
 }
